@@ -22,8 +22,9 @@ theorem eval_append (a b x y : Obj) (ha : eval a = .ok x) (hb : eval b = .ok y) 
     eval (call2 "append" a b) = appendChain x y := by
   simp [call2, S, eval, evalTwo, ha, hb, bind, Except.bind]
 
-theorem eval_makeArray (dims c : Obj) : eval (makeArrayF dims c) = makeArray dims c := by
-  simp [makeArrayF, quoteF, call1, S, eval, makeArrayArgs]
+theorem eval_makeArray (dims c : Obj) (adj : Bool) :
+    eval (makeArrayF dims c adj) = makeArray dims c adj := by
+  cases adj <;> simp [makeArrayF, quoteF, call1, S, eval, makeArrayArgs, ofBool, toBool]
 
 theorem eval_let (fills : Obj) : eval (letTableF fills) = evalFills fills .nil := by
   simp [letTableF, S, eval, evalLet]
@@ -57,7 +58,7 @@ theorem append_init_last : ∀ d : Obj, isCons d = true → appendChain (initOf 
     · simp [initOf, lastOf, hc, appendChain, append_init_last d hc, Except.map]
     · simp [initOf, lastOf, hc, appendChain]
   | .nil, h | .t, h | .int _, h | .ratio _ _, h | .flt _ _, h | .str _, h | .chr _, h | .sym _, h
-  | .vec _, h | .arr _ _, h | .hash _, h => by simp [isCons] at h
+  | .vec _ _, h | .arr _ _ _, h | .hash _, h => by simp [isCons] at h
 
 theorem isProper_cons (a d : Obj) : isProper (.cons a d) = isProper d := by
   simp [isProper, tailOf]
@@ -65,7 +66,7 @@ theorem isProper_cons (a d : Obj) : isProper (.cons a d) = isProper d := by
 theorem allElems_true : ∀ c : Obj, allElems (fun _ => true) c = true
   | .cons _ d => by simp [allElems, allElems_true d]
   | .nil | .t | .int _ | .ratio _ _ | .flt _ _ | .str _ | .chr _ | .sym _
-  | .vec _ | .arr _ _ | .hash _ => by simp [allElems]
+  | .vec _ _ | .arr _ _ _ | .hash _ => by simp [allElems]
 
 /-! ### hash table fill -/
 
@@ -91,10 +92,10 @@ theorem hput_new (k v : Obj) : ∀ acc : Obj, entriesShape acc = true → k ∉ 
   | .nil, _, _ => by simp [hput, happ]
   | .cons .nil _, hs, _ | .cons .t _, hs, _ | .cons (.int _) _, hs, _ | .cons (.ratio _ _) _, hs, _
   | .cons (.flt _ _) _, hs, _ | .cons (.str _) _, hs, _ | .cons (.chr _) _, hs, _
-  | .cons (.sym _) _, hs, _ | .cons (.vec _) _, hs, _ | .cons (.arr _ _) _, hs, _
+  | .cons (.sym _) _, hs, _ | .cons (.vec _ _) _, hs, _ | .cons (.arr _ _ _) _, hs, _
   | .cons (.hash _) _, hs, _ => by simp [entriesShape] at hs
   | .t, hs, _ | .int _, hs, _ | .ratio _ _, hs, _ | .flt _ _, hs, _ | .str _, hs, _ | .chr _, hs, _
-  | .sym _, hs, _ | .vec _, hs, _ | .arr _ _, hs, _ | .hash _, hs, _ => by simp [entriesShape] at hs
+  | .sym _, hs, _ | .vec _ _, hs, _ | .arr _ _ _, hs, _ | .hash _, hs, _ => by simp [entriesShape] at hs
 
 theorem entriesShape_happ : ∀ a b : Obj, entriesShape a = true → entriesShape b = true →
     entriesShape (happ a b) = true
@@ -105,11 +106,11 @@ theorem entriesShape_happ : ∀ a b : Obj, entriesShape a = true → entriesShap
   | .cons .nil _, _, hs, _ | .cons .t _, _, hs, _ | .cons (.int _) _, _, hs, _
   | .cons (.ratio _ _) _, _, hs, _
   | .cons (.flt _ _) _, _, hs, _ | .cons (.str _) _, _, hs, _ | .cons (.chr _) _, _, hs, _
-  | .cons (.sym _) _, _, hs, _ | .cons (.vec _) _, _, hs, _ | .cons (.arr _ _) _, _, hs, _
+  | .cons (.sym _) _, _, hs, _ | .cons (.vec _ _) _, _, hs, _ | .cons (.arr _ _ _) _, _, hs, _
   | .cons (.hash _) _, _, hs, _ => by simp [entriesShape] at hs
   | .t, _, hs, _ | .int _, _, hs, _ | .ratio _ _, _, hs, _ | .flt _ _, _, hs, _ | .str _, _, hs, _
   | .chr _, _, hs, _
-  | .sym _, _, hs, _ | .vec _, _, hs, _ | .arr _ _, _, hs, _ | .hash _, _, hs, _ => by
+  | .sym _, _, hs, _ | .vec _ _, _, hs, _ | .arr _ _ _, _, hs, _ | .hash _, _, hs, _ => by
     simp [entriesShape] at hs
 
 theorem keysOf_happ : ∀ a b : Obj, entriesShape a = true → keysOf (happ a b) = keysOf a ++ keysOf b
@@ -120,17 +121,17 @@ theorem keysOf_happ : ∀ a b : Obj, entriesShape a = true → keysOf (happ a b)
   | .cons .nil _, _, hs | .cons .t _, _, hs | .cons (.int _) _, _, hs
   | .cons (.ratio _ _) _, _, hs
   | .cons (.flt _ _) _, _, hs | .cons (.str _) _, _, hs | .cons (.chr _) _, _, hs
-  | .cons (.sym _) _, _, hs | .cons (.vec _) _, _, hs | .cons (.arr _ _) _, _, hs
+  | .cons (.sym _) _, _, hs | .cons (.vec _ _) _, _, hs | .cons (.arr _ _ _) _, _, hs
   | .cons (.hash _) _, _, hs => by simp [entriesShape] at hs
   | .t, _, hs | .int _, _, hs | .ratio _ _, _, hs | .flt _ _, _, hs | .str _, _, hs
   | .chr _, _, hs
-  | .sym _, _, hs | .vec _, _, hs | .arr _ _, _, hs | .hash _, _, hs => by
+  | .sym _, _, hs | .vec _ _, _, hs | .arr _ _ _, _, hs | .hash _, _, hs => by
     simp [entriesShape] at hs
 
 theorem happ_assoc_one : ∀ (a e r : Obj), happ (happ a (.cons e .nil)) r = happ a (.cons e r)
   | .cons x d, e, r => by simp [happ, happ_assoc_one d e r]
   | .nil, _, _ | .t, _, _ | .int _, _, _ | .ratio _ _, _, _ | .flt _ _, _, _ | .str _, _, _
-  | .chr _, _, _ | .sym _, _, _ | .vec _, _, _ | .arr _ _, _, _ | .hash _, _, _ => by simp [happ]
+  | .chr _, _, _ | .sym _, _, _ | .vec _ _, _, _ | .arr _ _ _, _, _ | .hash _, _, _ => by simp [happ]
 
 theorem happ_nil : ∀ a : Obj, entriesShape a = true → happ a .nil = a
   | .cons (.cons _ _) r, ha => by
@@ -140,11 +141,11 @@ theorem happ_nil : ∀ a : Obj, entriesShape a = true → happ a .nil = a
   | .cons .nil _, hs | .cons .t _, hs | .cons (.int _) _, hs
   | .cons (.ratio _ _) _, hs
   | .cons (.flt _ _) _, hs | .cons (.str _) _, hs | .cons (.chr _) _, hs
-  | .cons (.sym _) _, hs | .cons (.vec _) _, hs | .cons (.arr _ _) _, hs
+  | .cons (.sym _) _, hs | .cons (.vec _ _) _, hs | .cons (.arr _ _ _) _, hs
   | .cons (.hash _) _, hs => by simp [entriesShape] at hs
   | .t, hs | .int _, hs | .ratio _ _, hs | .flt _ _, hs | .str _, hs
   | .chr _, hs
-  | .sym _, hs | .vec _, hs | .arr _ _, hs | .hash _, hs => by
+  | .sym _, hs | .vec _ _, hs | .arr _ _ _, hs | .hash _, hs => by
     simp [entriesShape] at hs
 
 /-- filling a table with entries whose keys are new and pairwise distinct appends them in order -/
@@ -170,11 +171,11 @@ theorem hputAll_nodup : ∀ (es acc : Obj), entriesShape acc = true → entriesS
   | .cons .nil _, _, _, hs, _ | .cons .t _, _, _, hs, _ | .cons (.int _) _, _, _, hs, _
   | .cons (.ratio _ _) _, _, _, hs, _
   | .cons (.flt _ _) _, _, _, hs, _ | .cons (.str _) _, _, _, hs, _ | .cons (.chr _) _, _, _, hs, _
-  | .cons (.sym _) _, _, _, hs, _ | .cons (.vec _) _, _, _, hs, _ | .cons (.arr _ _) _, _, _, hs, _
+  | .cons (.sym _) _, _, _, hs, _ | .cons (.vec _ _) _, _, _, hs, _ | .cons (.arr _ _ _) _, _, _, hs, _
   | .cons (.hash _) _, _, _, hs, _ => by simp [entriesShape] at hs
   | .t, _, _, hs, _ | .int _, _, _, hs, _ | .ratio _ _, _, _, hs, _ | .flt _ _, _, _, hs, _
   | .str _, _, _, hs, _ | .chr _, _, _, hs, _
-  | .sym _, _, _, hs, _ | .vec _, _, _, hs, _ | .arr _ _, _, _, hs, _ | .hash _, _, _, hs, _ => by
+  | .sym _, _, _, hs, _ | .vec _ _, _, _, hs, _ | .arr _ _ _, _, _, hs, _ | .hash _, _, _, hs, _ => by
     simp [entriesShape] at hs
 
 /-! ### the round trip, by mutual structural recursion along `loadForm` and its helpers -/
@@ -194,7 +195,11 @@ mutual
     | .flt _ _, _ => by simp [loadForm, eval]
     | .str _, _ => by simp [loadForm, eval]
     | .chr _, _ => by simp [loadForm, eval]
-    | .sym s, _ => by simp only [loadForm]; exact eval_quoteF _
+    | .sym s, _ => by
+      simp only [loadForm]
+      by_cases hk : isKeyword s = true
+      · simp [hk, eval]
+      · simp only [hk]; exact eval_quoteF _
     | .cons a d, h => by
       have ⟨ha, hd⟩ := wf_cons a d h
       simp only [loadForm]
@@ -214,12 +219,12 @@ mutual
           have hc' : isCons d = false := by simpa using hc
           simp only [hp', hc', Bool.false_eq_true, if_false]
           exact eval_cons _ _ _ _ (roundtrip_obj a ha) (roundtrip_obj d hd)
-    | .vec es, h => by
+    | .vec adj es, h => by
       have hp : isProper es = true := by simpa [wf] using h
       simp only [loadForm]
       rw [eval_makeArray]
       simp [makeArray, dimsOf, shapeOk, hp, allElems_true]
-    | .arr dims c, h => by
+    | .arr adj dims c, h => by
       simp only [loadForm]
       rw [eval_makeArray]
       simp only [wf] at h
@@ -244,7 +249,7 @@ mutual
       exact evalArgs_cons _ _ _ _ (roundtrip_obj a ha) (rtElems d hd hp)
     | .nil, _, _ => by simp [lfElems, evalArgs]
     | .t, _, hp | .int _, _, hp | .ratio _ _, _, hp | .flt _ _, _, hp | .str _, _, hp
-    | .chr _, _, hp | .sym _, _, hp | .vec _, _, hp | .arr _ _, _, hp | .hash _, _, hp => by
+    | .chr _, _, hp | .sym _, _, hp | .vec _ _, _, hp | .arr _ _ _, _, hp | .hash _, _, hp => by
       simp [isProper, tailOf] at hp
   theorem rtInit : ∀ d : Obj, wf d = true → isCons d = true → evalArgs (lfInit d) = .ok (initOf d)
     | .cons a d, h, _ => by
@@ -254,7 +259,7 @@ mutual
         exact evalArgs_cons _ _ _ _ (roundtrip_obj a ha) (rtInit d hd hc)
       · simp [lfInit, initOf, hc, evalArgs]
     | .nil, _, hc | .t, _, hc | .int _, _, hc | .ratio _ _, _, hc | .flt _ _, _, hc | .str _, _, hc
-    | .chr _, _, hc | .sym _, _, hc | .vec _, _, hc | .arr _ _, _, hc | .hash _, _, hc => by
+    | .chr _, _, hc | .sym _, _, hc | .vec _ _, _, hc | .arr _ _ _, _, hc | .hash _, _, hc => by
       simp [isCons] at hc
   theorem rtLast : ∀ d : Obj, wf d = true → isCons d = true → eval (lfLast d) = .ok (lastOf d)
     | .cons a d, h, _ => by
@@ -265,7 +270,7 @@ mutual
       · simp only [lfLast, lastOf, hc]
         exact eval_cons _ _ _ _ (roundtrip_obj a ha) (roundtrip_obj d hd)
     | .nil, _, hc | .t, _, hc | .int _, _, hc | .ratio _ _, _, hc | .flt _ _, _, hc | .str _, _, hc
-    | .chr _, _, hc | .sym _, _, hc | .vec _, _, hc | .arr _ _, _, hc | .hash _, _, hc => by
+    | .chr _, _, hc | .sym _, _, hc | .vec _ _, _, hc | .arr _ _ _, _, hc | .hash _, _, hc => by
       simp [isCons] at hc
   theorem rtFills : ∀ (es acc : Obj), entriesShape es = true → wfEntries es = true →
       evalFills (lfFills es) acc = .ok (.hash (hputAll acc es))
@@ -279,11 +284,11 @@ mutual
     | .cons .nil _, _, hs, _ | .cons .t _, _, hs, _ | .cons (.int _) _, _, hs, _
     | .cons (.ratio _ _) _, _, hs, _
     | .cons (.flt _ _) _, _, hs, _ | .cons (.str _) _, _, hs, _ | .cons (.chr _) _, _, hs, _
-    | .cons (.sym _) _, _, hs, _ | .cons (.vec _) _, _, hs, _ | .cons (.arr _ _) _, _, hs, _
+    | .cons (.sym _) _, _, hs, _ | .cons (.vec _ _) _, _, hs, _ | .cons (.arr _ _ _) _, _, hs, _
     | .cons (.hash _) _, _, hs, _ => by simp [entriesShape] at hs
     | .t, _, hs, _ | .int _, _, hs, _ | .ratio _ _, _, hs, _ | .flt _ _, _, hs, _ | .str _, _, hs, _
     | .chr _, _, hs, _
-    | .sym _, _, hs, _ | .vec _, _, hs, _ | .arr _ _, _, hs, _ | .hash _, _, hs, _ => by
+    | .sym _, _, hs, _ | .vec _ _, _, hs, _ | .arr _ _ _, _, hs, _ | .hash _, _, hs, _ => by
       simp [entriesShape] at hs
 end
 
